@@ -88,7 +88,8 @@ def run(ctx):
                 oks.append(bl.idx)
     for bb in oks:
         rels = flow.rel_facts_at(RIN, bb)
-        okv = any(r[0] == "Pred" and r[1] == "is_some" and is_call(r[2], "get_supported_version") for r in rels)
+        from lib import fact_is_present
+        okv = fact_is_present(rels, lambda x: is_call(x, "get_supported_version"))
         ctx.check("gate", "ok-requires-supported-version", okv, "Ok only when a supported version was found", "Ok without a supported version", rf.loc(bb))
     ef = flow.edge_facts(rf, rev)
     found = False
